@@ -61,4 +61,18 @@ theorem step_ack_eq (H : Hash) (t : Int) (s : Store) (id v : String) (cur : Pub)
     · cases allow <;> simp [h1, h2]
     · simp [h1, h2]
 
+/-- a request of the publication API on an existing publication -/
+inductive PReq where
+  | update (p : Pub) (mask : UMask) (version : String)
+  | ack (version : String) (receipt : Int) (reason : String) (allowAck : Bool)
+
+def PReq.call (H : Hash) : PReq → PCall
+  | .update p m v => updateCall H p m v
+  | .ack v r reason a => ackCall v r reason a
+
+theorem PReq.call_ok (H : Hash) (r : PReq) : (r.call H).OK (PubOK H) := by
+  cases r with
+  | update p m v => exact updateCall_ok H p m v
+  | ack v r reason a => exact ackCall_ok H v r reason a
+
 end ScVerif.C20.Publication
